@@ -299,8 +299,9 @@ GnuBytes(x, t) == LET g == BuildGnu(t, x.nb, x.so, 1, 5, x.cls) IN
                   EncGnu(IF x.ld /\ x.so = Len(t) THEN [g EXCEPT !.so = 1] ELSE g, x.cls, x.le)
 
 Base(x) == IF x.layout = "high" THEN (IF x.cls = 32 THEN <<0, 0, 0, 192>> ELSE <<0, 0, 0, 128, 255, 255, 255, 255>>)
-           ELSE LEn(4194304, Ws(x))
-Plus(d, n) == DAdd(d, LEn(n, Len(d)))
+           ELSE TLCEval(LEn(4194304, Ws(x)))
+\* (TLCEval: explicit tuples - TLC re-evaluates a lazily built digit string at every use of one of its digits)
+Plus(d, n) == TLCEval(DAdd(d, LEn(n, Len(d))))
 \* PT_LOAD entries [va, off, fsz, msz] for a data region ending at file offset `dend`, split at file offset `s`
 Loads(x, s, dend) ==
   LET b == Base(x) IN
@@ -319,18 +320,19 @@ DotHash == <<46, 104, 97, 115, 104>>
 DotGnuHash == <<46, 103, 110, 117, 46, 104, 97, 115, 104>>
 DotDynamic == <<46, 100, 121, 110, 97, 109, 105, 99>>
 DotData == <<46, 100, 97, 116, 97>>
-Sht(name) == W(DTrunc(KindCodes[name], 4))
+Sht(name) == W(TLCEval(DTrunc(KindCodes[name], 4)))
 
 \* d_tag / d_un as field values, given the addresses P = [strtab, symtab, hash, gnuhash, decoy, bss]
 BigOf(x) == IF x.cls = 32 THEN W(<<1, 0, 0, 128>>) ELSE W(<<1, 0, 0, 0, 0, 0, 0, 128>>)
-TagDigits(x, t) == IF t.sx THEN DSext(t.c, Ws(x)) ELSE DTrunc(t.c, Ws(x))
+TagDigits(x, t) == TLCEval(IF t.sx THEN DSext(t.c, Ws(x)) ELSE DTrunc(t.c, Ws(x)))
 ValDigits(x, P, t) ==
+  TLCEval(
   CASE t.k = "str" -> LEn(StrOffs[t.a], Ws(x))
     [] t.k = "val" -> Digits(IF "big" \in DOMAIN t.a THEN BigOf(x) ELSE t.a, Ws(x))
     [] t.k = "tab" -> P[t.a]
     [] t.k = "bss" -> P.bss
     [] t.k = "in" -> Plus(P.strtab, 1)
-    [] t.k = "null" -> DZero(Ws(x))
+    [] t.k = "null" -> DZero(Ws(x)))
 EncTags(x, P, ts) == CatAll([i \in 1..Len(ts) |-> Fix(W(TagDigits(x, ts[i])), Ws(x), x.le) \o Fix(W(ValDigits(x, P, ts[i])), Ws(x), x.le)], Len(ts))
 
 \* Writer, last three steps.  Build(so): the symbol table is complete - the symbols from `so` on are hashed (so = table
